@@ -40,6 +40,7 @@ class Registry:
         self.ghost_init = {}       # cls -> callable(eng, st, obj): initial values of ghost fields of a freshly constructed object
         self.iter_fields = {}      # cls -> list field that `for x in obj` iterates over
         self.imported = {}         # qualname -> contract module where the imported contract is proved
+        self.iterator_models = {}  # cls -> (items field, cursor field): an iterator OBJECT over a sequence; a for loop over it consumes (advances the cursor)
         self.object_models = {}    # cls -> object with optional hooks getattr/setattr/getitem/setitem/contains/method (axiomatised library objects)
 
     def import_proved(self, other, modname, names):
@@ -51,7 +52,7 @@ class Registry:
             self.named_sorts.setdefault(cls, REF(cls))
         self.ghost_fields |= other.ghost_fields
         for k in ("ctor_fields", "ctor_defaults", "spec_functions", "store_hooks", "ghost_deps", "ghost_init", "iter_fields", "order_keys", "object_models",
-                  "external_models", "constants", "ctypes"):
+                  "external_models", "constants", "ctypes", "iterator_models"):
             for a, b in getattr(other, k).items():
                 getattr(self, k).setdefault(a, b)
         self.pointees |= other.pointees
